@@ -234,3 +234,51 @@ pub fn ops_d<T: Message + PartialEq + std::fmt::Debug + Default>() -> Ops {
 
 #[allow(dead_code)]
 fn _unused(_: &dyn TLengthProtocol) {}
+
+
+/// Runtime (hand-written) decoders under the same worker isolation: the generic value reader over the
+/// primitive API, and TApplicationException.  ty = "@rt" (field "t" = wire type) or "@appexc".
+pub fn exec_rt(req: &Value) -> Value {
+    use vh::protos::{decode_async, decode_seq, Proto};
+    let proto = req["proto"].as_str().unwrap_or("bin").to_string();
+    let mode = req["mode"].as_str().unwrap_or("sync").to_string();
+    let input = bytes_of(&req["input"]);
+    let r = catch_unwind(AssertUnwindSafe(|| -> Value {
+        if req["ty"].as_str() == Some("@appexc") {
+            use pilota::thrift::ApplicationException;
+            return if mode == "async" {
+                let (sched, chunk) = sched_of(req, input.len());
+                let a = dec_async::<ApplicationException>(&input, &proto, sched, chunk, req["eof_at"].as_u64().map(|k| k as usize));
+                match a.val {
+                    Ok(_) => json!({"ok": true, "used": a.taken}),
+                    Err(e) => json!({"ok": false, "err": e}),
+                }
+            } else {
+                match dec::<ApplicationException>(&input, &proto) {
+                    Ok((_, n)) => json!({"ok": true, "used": n}),
+                    Err(e) => json!({"ok": false, "err": e}),
+                }
+            };
+        }
+        let t = req["t"].as_u64().unwrap_or(12) as u8;
+        let p = Proto::parse(&proto);
+        if mode == "async" {
+            let (sched, chunk) = sched_of(req, input.len());
+            let a = decode_async(p, &input, &[t], sched, chunk, req["eof_at"].as_u64().map(|k| k as usize), false);
+            match a.err {
+                None => json!({"ok": true, "used": a.taken}),
+                Some(e) => json!({"ok": false, "err": e, "panic": e.starts_with("panic"), "hang": e.starts_with("hang")}),
+            }
+        } else {
+            let d = decode_seq(p, &input, &[t], false);
+            match d.err {
+                None => json!({"ok": true, "used": d.ends[0]}),
+                Some(e) => json!({"ok": false, "panic": e.starts_with("panic"), "err": e}),
+            }
+        }
+    }));
+    match r {
+        Ok(v) => v,
+        Err(e) => json!({"ok": false, "err": panic_msg(e), "panic": true}),
+    }
+}
